@@ -157,6 +157,46 @@ def pubkey_address(E, R, addr_type, compressed, testnet):
     return "ok"
 
 
+def from_uncompressed(E, R, testnet, via):
+    """a key object obtained from *uncompressed* data (65-byte SEC / uncompressed WIF) still gives the standard
+    addresses of the compressed key by default, and the uncompressed ones only on request"""
+    k, kb = cm.sym_scalar(E, "k")
+    if via == "sec":
+        pub = E.run(R.keys.PublicKey.parse, E.H.sec(k, False))
+    else:
+        w = R.keys.PrivateKey(kb).wif(False, testnet)
+        prv = E.run(R.keys.PrivateKey.from_wif, w)
+        pub = prv if isinstance(prv, Raised) else prv.K
+    if isinstance(pub, Raised):
+        E.fail("uncompressed key data parses")
+        return "raised"
+    sec_c, sec_u = E.H.sec(k, True), E.H.sec(k, False)
+    E.check_eq(pub.sec(), sec_c, "sec() defaults to the compressed encoding whatever the key was parsed from")
+    E.check_eq(pub.h160(), E.H.hash160(sec_c), "h160() defaults to the compressed key")
+    E.check_eq(pub.h160(False), E.H.hash160(sec_u), "h160(compressed=False) is the uncompressed key's hash")
+    for at in ("p2pkh", "p2wpkh"):
+        check_address(E, R, E.run(lambda: pub.address(testnet=testnet, addr_type=at)), at, testnet, sec_c, tag="default ")
+    check_address(E, R, E.run(lambda: pub.address(False, testnet, "p2pkh")), "p2pkh", testnet, sec_u, tag="uncompressed ")
+    if via == "sec":
+        node = R.bip32.PubKeyNode(key=E.H.sec(k, False), chain_code=E.bytes("c", 32), testnet=testnet)
+        wl = R.base_wallet.BaseWallet(master=node, testnet=testnet)
+        for kind in KINDS:
+            check_address(E, R, E.run(getattr(wl, kind + "_address"), node), kind, testnet, sec_c, tag="node with uncompressed key bytes ")
+    return "ok"
+
+
+def b58_zeros(E, R, zeros):
+    """the real Base58Check encoder on a mainnet P2PKH payload whose hash starts with zero bytes"""
+    from props import C10
+    from sx import env
+    old = env.INT_MODE_HASHES
+    env.INT_MODE_HASHES = True
+    try:
+        return C10.encode_real(E, R, "00" * zeros, 21)
+    finally:
+        env.INT_MODE_HASHES = old
+
+
 def two_nodes(E, R, kind, testnet):
     """the same wallet object asked for two different nodes with identical path text: each address
     commits to its own node's key"""
@@ -193,6 +233,13 @@ def cases(tier):
                 cs.append(Case("addr[%s,testnet=%s,watch=%s]" % (kind, t, watch), "address", dict(kind=kind, testnet=t, watch=watch),
                                weight=5))
             cs.append(Case("two_nodes[%s,testnet=%s]" % (kind, t), "two_nodes", dict(kind=kind, testnet=t), weight=8))
+    for t in (False, True):
+        for via in ("sec", "wif"):
+            cs.append(Case("from_uncompressed[%s,testnet=%s]" % (via, t), "from_uncompressed", dict(testnet=t, via=via), weight=8,
+                           need=("sec() defaults to the compressed encoding whatever the key was parsed from",)))
+    for z in (2, 3):
+        cs.append(Case("b58_zeros[%d]" % z, "b58_zeros", dict(zeros=z), weight=20,
+                       need=("real-size encode: leading '1's == leading zero bytes",)))
     for at in ("p2pkh", "p2wpkh"):
         for comp in (True, False):
             for t in (False, True):
